@@ -480,13 +480,22 @@ func (mc *modelCheck) run(c *vk.Ctx) {
 		pair := i%4 == 1
 		var hist2 []string
 		cfg2 := cfg
+		a2 := a
 		if pair {
 			cfg2.SessionId = cfg.SessionId + "-other"
 			r2 := c.RNG(key + "/pair")
+			if i%8 == 5 {
+				// the other session belongs to another application served by the same process (its own nodes, catch
+				// node, functions): whatever the library keeps process-wide is now fed by two different programs
+				r3 := c.RNG(key + "/pairapp")
+				a2 = app.Generate(r3, mc.Profile(r3))
+				cfg2 = genConfig(r3, a2, cfg2.SessionId)
+				c.Count("histories_served_in_alternation_with_a_session_of_another_application", 1)
+			}
 			if mc.Hist != nil {
-				hist2 = mc.Hist(r2, a)
+				hist2 = mc.Hist(r2, a2)
 			} else {
-				hist2 = a.History(r2, r2.Range(mc.HistLen[0], mc.HistLen[1]))
+				hist2 = a2.History(r2, r2.Range(mc.HistLen[0], mc.HistLen[1]))
 			}
 			c.Count("histories_served_in_alternation_with_a_second_session", 1)
 		}
@@ -506,7 +515,7 @@ func (mc *modelCheck) run(c *vk.Ctx) {
 							d2 = &disc{Kind: "harness", Msg: fmt.Sprintf("second session: %v", pv)}
 						}
 					}()
-					d2, _ = monitorSession(c, a, cfg2, hist2, sessOpts{Driver: drv, PastEnd: mc.PastEnd && drv != "long", Turn: t, Side: 1})
+					d2, _ = monitorSession(c, a2, cfg2, hist2, sessOpts{Driver: drv, PastEnd: mc.PastEnd && drv != "long", Turn: t, Side: 1})
 				}()
 				d, st = monitorSession(c, a, cfg, hist, sessOpts{Driver: drv, PastEnd: mc.PastEnd && drv != "long", Turn: t, Side: 0})
 				wg.Wait()
